@@ -17,9 +17,8 @@
         tracks a shared request reading log i when an operation starts), the QoS>0 forwards of
         (L1, f, i) before the end marker are [l1 ++ w]: everything in [w] is >= r, everything in
         [l1] (acknowledged in order) is < r.  [run_nowindow]: if [w] is empty, EVERY forward of
-        (L1, f, i) is < r.  [res_fwd_ge]: what is forwarded under (L2, f, i) is >= c0 — unless the
-        first event after the marker is a jump from c0 to a smaller offset (the restored cursor was
-        stale and the log's base lies below it; not excluded here).
+        (L1, f, i) is < r.  [res_fwd_ge]: what is forwarded under (L2, f, i) is >= c0 (a first
+        jump after the marker goes FORWARD, to the log's base: TraceRunBound.v).
     (d) [run_away_complete]: quiescent end, connection of L2 alive: every offset from c0 to the end
         of log i is accounted for after the marker.
     (e) [run_clean_connect_no_res]: the epoch of a Connect with clean_session = true has no resume
@@ -54,21 +53,18 @@ Proof.
   destruct (kchain_from_nores _ _ H _ X) as [Y _]. discriminate.
 Qed.
 
-(** what is forwarded after a resume marker lies at or after its offset, unless the first event is a
-    backward jump *)
+(** what is forwarded after a resume marker lies at or after its offset *)
 Lemma res_fwd_ge cl c0 l2 :
-  kchain_from (KRes cl c0) l2 ->
-  forall y, In y (fwd_offs l2) -> c0 <= y \/ exists to l', l2 = KJump c0 to :: l' /\ to <= y /\ y < c0.
+  kchain_from (KRes cl c0) l2 -> forall y, In y (fwd_offs l2) -> c0 <= y.
 Proof.
   destruct l2 as [|b l]; [intros _ y []|]. cbn [kchain_from]. intros [H1 H2] y Hy.
   assert (Hb : is_res b = false) by (destruct b; cbn [ok_next] in H1; try contradiction; reflexivity).
   assert (Hy' : nxt b <= y \/ exists p, b = KFwd y p).
   { apply fwd_offs_In in Hy as (p & [E | Hp]); [right; eauto|left]. eapply kchain_from_fwd_ge; eassumption. }
   destruct b as [off p|from to|e|cl' c'|cl' r' w']; cbn [ok_next nxt is_res] in *; try contradiction.
-  - left. destruct Hy' as [Hy' | (q & E)]; [lia|]. inversion E; lia.
-  - destruct H1 as [-> _]. destruct Hy' as [Hy' | (q & E)]; [|discriminate].
-    destruct (N.le_gt_cases c0 y); [now left|right]. exists to, l. split; [reflexivity|lia].
-  - left. destruct Hy' as [Hy' | (q & E)]; [lia|discriminate].
+  - destruct Hy' as [Hy' | (q & E)]; [lia|]. inversion E; lia.
+  - destruct Hy' as [Hy' | (q & E)]; [lia|discriminate].
+  - destruct Hy' as [Hy' | (q & E)]; [lia|discriminate].
 Qed.
 
 (** every forwarded offset of a chain lies before the place where its last event continues *)
@@ -143,7 +139,7 @@ Theorem run_resume cfg st0 ops st tr :
     ktrace (L2, f, i) tr = KRes cl c0 :: l2 /\
     match l2 with
     | KFwd off _ :: _ => off = c0
-    | KJump from _ :: _ => from = c0
+    | KJump from to :: _ => from = c0 /\ c0 <= to
     | KSub e :: _ => c0 <= e
     | _ :: _ => False
     | [] => True
@@ -161,7 +157,7 @@ Proof.
   split; [exact E1|]. split; [exact Hq|]. split; [exact Hlt|]. split; [exact Ha|]. split; [exact Hc0|].
   split; [rewrite E, ktrace_app, Hnil, ktrace_cons_same by reflexivity; reflexivity|].
   destruct (ktrace (L2, f, i) tr2) as [|b l]; [exact I|]. cbn [kchain_from] in Hfrom. destruct Hfrom as [Hb _].
-  destruct b; cbn [ok_next nxt] in Hb; try contradiction; [exact Hb|exact (proj1 Hb)|exact Hb].
+  destruct b; cbn [ok_next nxt] in Hb; try contradiction; try exact Hb. destruct Hb as [-> Hb]. auto.
 Qed.
 
 (* ------------------------------------------------------------------ (b), (c): the window at the end of an epoch *)
@@ -204,16 +200,14 @@ Proof.
   eapply kchain_fwd_lt_last; eassumption.
 Qed.
 
-(** (c), across the two epochs: an offset acknowledged in the old epoch is not forwarded in the new
-    one — unless the new epoch starts with a backward jump *)
+(** (c), across the two epochs: an offset acknowledged in the old epoch is not forwarded in the new one *)
 Theorem run_acked_not_again cfg st0 ops st tr L1 i :
   run_hyps cfg st0 ops st tr -> always_b (noshare_b L1 i) st0 ops = true ->
   forall ta id1 f cl c0 w tb id2 L2 tr2,
     tr = ta ++ (id1, (L1, f, i), KEnd cl c0 w) :: tb ++ (id2, (L2, f, i), KRes cl c0) :: tr2 ->
   exists l1 l2,
     qfo (ktrace (L1, f, i) ta) = l1 ++ w /\ ktrace (L2, f, i) tr = KRes cl c0 :: l2 /\
-    forall x, In x l1 -> x < c0 /\
-      (In x (fwd_offs l2) -> exists to l', l2 = KJump c0 to :: l' /\ to <= x).
+    forall x, In x l1 -> x < c0 /\ ~ In x (fwd_offs l2).
 Proof.
   intros H HA ta id1 f cl c0 w tb id2 L2 tr2 E.
   destruct (run_window _ _ _ _ _ _ _ H HA _ _ _ _ _ _ _ E) as (l1 & Hl1 & _ & Hlt).
@@ -224,7 +218,7 @@ Proof.
   exists l1, (ktrace (L2, f, i) tr2). split; [exact Hl1|].
   split; [rewrite E2, ktrace_app, Hnil, ktrace_cons_same by reflexivity; reflexivity|].
   intros x Hx. specialize (Hlt _ Hx). split; [exact Hlt|]. intros Hin.
-  destruct (res_fwd_ge _ _ _ Hfrom _ Hin) as [Hge | (to & l' & -> & Hto & _)]; [lia|eauto].
+  pose proof (res_fwd_ge _ _ _ Hfrom _ Hin). lia.
 Qed.
 
 (* ------------------------------------------------------------------ (d) *)
@@ -328,7 +322,7 @@ Qed.
 Lemma connect_clean_nores st tr orc c st' out evs :
   RunInv st tr -> step_with_d st orc (OpConnect c) = Ok (st', out, evs) -> cr_clean c = true -> no_res evs.
 Proof.
-  intros [[[HI Hn] HD] HC HL HDI] H Hcl. unfold step_with_d in H.
+  intros [[[HI Hn] HD] HC HL HDI HBI] H Hcl. unfold step_with_d in H.
   apply bind_ok in H as ([[s1 out1] evs1] & H1 & H). destruct (r_oracle s1); [|discriminate]. inv_ok.
   unfold step_d in H1. apply bind_ok in H1 as ([s2 o2] & H2 & H1). inv_ok. cbn [step] in H2. cbv zeta in H2.
   apply bind_ok in H2 as (st3 & H3 & H2). inv_ok.
@@ -392,12 +386,11 @@ Proof.
   apply ktrace_In in Hin as (_ & id & Hin). eapply run_clean_connect_no_res; eassumption.
 Qed.
 
-(** what the resumed key forwards lies at or after the resume point, unless it starts with a
-    backward jump *)
+(** what the resumed key forwards lies at or after the resume point *)
 Theorem run_res_fwd_ge cfg st0 ops st tr :
   run_hyps cfg st0 ops st tr ->
   forall K cl c0 l2, ktrace K tr = KRes cl c0 :: l2 ->
-  forall y, In y (fwd_offs l2) -> c0 <= y \/ exists to l', l2 = KJump c0 to :: l' /\ to <= y /\ y < c0.
+  forall y, In y (fwd_offs l2) -> c0 <= y.
 Proof.
   intros H K cl c0 l2 E. pose proof (run_chain _ _ _ _ _ H K) as Hch. rewrite E in Hch. cbn [kchain] in Hch.
   exact (res_fwd_ge cl c0 l2 Hch).
@@ -419,7 +412,7 @@ Theorem c08_run_resume_point_thm :
     ktrace (L2, f, i) tr = KRes cl c0 :: l2 /\
     match l2 with
     | KFwd off _ :: _ => off = c0
-    | KJump from _ :: _ => from = c0
+    | KJump from to :: _ => from = c0 /\ c0 <= to
     | KSub e :: _ => c0 <= e
     | _ :: _ => False
     | [] => True
@@ -441,8 +434,7 @@ Theorem c08_run_acked_not_again_thm : forall L1 i,
     tr = ta ++ (id1, (L1, f, i), KEnd cl c0 w) :: tb ++ (id2, (L2, f, i), KRes cl c0) :: tr2 ->
   exists l1 l2,
     qfo (ktrace (L1, f, i) ta) = l1 ++ w /\ ktrace (L2, f, i) tr = KRes cl c0 :: l2 /\
-    forall x, In x l1 -> x < c0 /\
-      (In x (fwd_offs l2) -> exists to l', l2 = KJump c0 to :: l' /\ to <= x).
+    forall x, In x l1 -> x < c0 /\ ~ In x (fwd_offs l2).
 Proof. intros L1 i. exact (run_acked_not_again _ _ _ _ _ L1 i H). Qed.
 
 Theorem c08_run_no_window_thm :
@@ -452,7 +444,7 @@ Proof. exact (run_nowindow _ _ _ _ _ H). Qed.
 
 Theorem c08_run_resumed_from_thm :
   forall K cl c0 l2, ktrace K tr = KRes cl c0 :: l2 ->
-  forall y, In y (fwd_offs l2) -> c0 <= y \/ exists to l', l2 = KJump c0 to :: l' /\ to <= y /\ y < c0.
+  forall y, In y (fwd_offs l2) -> c0 <= y.
 Proof. exact (run_res_fwd_ge _ _ _ _ _ H). Qed.
 
 Theorem c08_run_away_complete_thm :
